@@ -16,7 +16,7 @@ import (
 )
 
 // alphabet of Literal.tla
-var litAlphabet = []string{"a", "n", "t", "\\", "\"", "\n", "\t", "\r", "\f", " ", "é", "r", "f"}
+var litAlphabet = []string{"a", "n", "t", "\\", "\"", "\n", "\t", "\r", "\f", " ", "é", "r", "f", "o"}
 
 func litStr(units []any) string {
 	var b strings.Builder
@@ -125,8 +125,9 @@ func literalMain(args []string) error {
 			}
 			rep.Evals++
 			// in every operand position: =, !=, in, not in, contains
-			vals := append([]string{want, want + "a", "a" + want}, pool...)
-			for _, form := range []string{"s = %s", "s != %s", "s in [%s]", "s not in [%s, \"zzz\"]", "s contains %s"} {
+			vals := append([]string{want, want + "a", "a" + want, "q1"}, pool...)
+			for _, form := range []string{"s = %s", "s != %s", "s in [%s]", "s not in [%s, \"zzz\"]", "s contains %s", "s not contains %s",
+				"s in [\"q1\", \"q2\"] or s in [%s, \"q3\"]"} {
 				q, err := ast.Parse(oneString{}, fmt.Sprintf(form, text))
 				if err != nil {
 					add(text, want, err.Error(), "parse:"+form)
@@ -143,6 +144,10 @@ func literalMain(args []string) error {
 						exp = v != want
 					case "s not in [%s, \"zzz\"]":
 						exp = v != want && v != "zzz"
+					case "s not contains %s":
+						exp = !strings.Contains(v, want)
+					case "s in [\"q1\", \"q2\"] or s in [%s, \"q3\"]":
+						exp = v == "q1" || v == "q2" || v == "q3" || v == want
 					default:
 						exp = strings.Contains(v, want)
 					}
